@@ -19,6 +19,12 @@ TEXT = {
     "C02": ("trace-specification monitor at every Control<Rule>::match boundary (cursor snapshot on entry/exit, bump hook tells whether the cursor moved inside)",
             "Exploration: pure trace monitor, needs no model: every invocation (nested and hidden internal rules included) of every corpus run is checked for 'false under rewind_mode::required => cursor (pointer, byte, line, column) unchanged', 'look-ahead never moves', 'success never moves backwards', with and without an action attached to the observed rule. The evidence counts, per rule type, the failing required-mode invocations that had moved the cursor internally - the only ones that can violate.",
             "Rule types for which no consuming-then-failing invocation was produced show up as absent cells, not as held; custom user rules are out of reach.", "5/C02"),
+    "C03": ("sanitizer + window-hook monitor: shipped grammars and the generated corpus on exact-size / poisoned-tail / poisoned-buffer placements, clang ASan+UBSan",
+            "Exploration: json, uri, iri, http (incl. chunked bodies), abnf, lua53, proto3, double, integer, raw_string, utf8/16/32, uintN and core rules under five eol policies run on every prefix and single-byte mutation of seeded valid documents, each in a poisoned-tail block whose tail would extend a match, in an exact-size heap block, and through buffer_input with the undelivered buffer tail poisoned; plus every ASan-built configuration of the generated grammar corpus. The window hook in peek_char()/bump*(), the cursor-inside-input check at every match() boundary, result equality between placements and the sanitizers are the oracles.",
+            "A clean run is 'no red-zone / poisoned-byte access and no window-hook firing on these executions', not memory safety; intra-object overflows and stale unpoisoned bytes are invisible.", "5/C03"),
+    "C07": ("differential monitor across input classes with the buffer hooks: observation record vs the eager memory_input baseline; overflow_error iff need > capacity",
+            "Exploration: corpus grammars with discard at documented-safe points and require<N>/everything atoms; every input through memory_input eager/lazy, string/read/mmap/file/argv inputs, istream/cstream inputs and buffer_input with Chunk 1, 3, 64 x six short-read schedules x every capacity from Chunk to need+2. (result, consumed, raw action trace with spans and positions, error text) must equal the baseline; std::overflow_error must occur exactly when the largest offset+amount of any require() exceeds the capacity.",
+            CORPUS_NOTE + " Readers are assumed to follow the documented contract.", "5/C07"),
     "C04": ("transactional event-log monitor (action log truncated when an enclosing invocation fails) compared with the reference derivation, plus per-invocation span/enablement assertions",
             "Exploration: void, vetoing and throwing apply/apply0 actions (deterministic predicate of rule and span) on arbitrary visible rules, apply<>/apply0<>/if_apply<>, enable/disable/at/not_at nesting, eager and lazy inputs. The surviving action log must equal the reference's action events in order; every raw invocation must carry begin = its invocation's entry cursor and end = parse cursor, must not happen inside look-ahead/disabled sections, and a veto must end the invocation with false and a restored cursor.",
             CORPUS_NOTE + " Grammars whose documented expansion repeats a sub-rule inside a predicate are not run with vetoing/throwing attachments.", "5/C04"),
@@ -37,6 +43,9 @@ TEXT = {
     "C10": ("reference-model monitor with enumerated candidate units on exact-size ASan buffers: independent table-driven codecs and set tables",
             "Exploration with exhaustive sub-spaces: every byte for every ASCII/abnf/uint8 rule (all 256 masks), all 2^16 two-byte inputs for string/istring rules, all 1-3 byte UTF-8 inputs, every code point for every UTF family, all 2^16 UTF-16 units and uint16 values; thorough: all 2^30 four-byte UTF-8 inputs with lead >= 0xC0, all 2^32 UTF-16 pairs and UTF-32 units in both byte orders. (matched, consumed) must equal (member, length) from the independent codec.",
             "Trusts cpp/oracles/utf_codec.hpp, unit_sets.hpp, ascii_classes.hpp; uint32/uint64 rules are boundary + random only; ICU rules not covered.", "5/C10"),
+    "C11": ("doubly confirmed witness search: reference interpreter's exact cycle detection + fuel-limited monitored real run, against analyze< G >()",
+            "Exploration: ~1800 systematically ill-formed grammars (quick: a seeded half) that put a cycle through every rule type with analyze_traits and every sub-rule slot (direct, indirect, behind a consuming prefix, behind a second sor alternative, nullable body under a repetition) with nullable / predicate / failing / consuming neighbours; a grammar with analyze() == 0 for which some input up to the bound makes the reference report a cycle without progress and the real parser exceed its invocation / nesting budget is a violation.",
+            "'No input' is bounded by the explored input lengths; false positives of the analysis are not violations.", "5/C11"),
     "C12": ("reference-model monitor: parse_tree::parse (with the match()-wrapping control underneath) vs the reference derivation filtered by the same selector table",
             "Exploration: corpus grammars incl. recursion, the context matrix and chains of 5..11 unselected rules around a selected leaf (is_leaf<8> boundary); selectors = all / random subsets / remove_content, fold_one, discard_empty / sparse; no, void, vetoing and throwing actions. Tree (type, begin, end, nesting, order, content kept) must equal the visible successful matches of the reference derivation with transformers applied bottom-up; null tree <=> no success; contents inside the input.",
             CORPUS_NOTE + " Custom node types out of reach. Known finding: nodes created on rematch sub-inputs keep a dangling source view.", "5/C12"),
